@@ -122,3 +122,77 @@ func VH11a_pairs() {
 	sock.Close()
 	verif.Quiesce()
 }
+
+var coreOps = []string{"d.get-maxrx", "d.get-reconn", "d.set-reconn", "s.set-reconn", "s.set-maxrx", "s.get-maxrx", "l.get-maxrx", "l.set-maxrx",
+	"p.get-maxrx", "p.close", "d.close", "l.close", "s.set-asynch", "s.get-reconn", "d.get-passed-up", "l.get-passed-up"}
+
+// VH11b_core: pairs of operations on a socket, its dialer, its listener and a
+// dialed pipe from two goroutines, under every schedule with at most k
+// preemptions: no deadlock, no panic, no unsynchronised access in the core.
+func VH11b_core() {
+	lab := "C11/core"
+	vt.Install()
+	sock := vp.New("bus")
+	var pipes []mangos.Pipe
+	sock.SetPipeEventHook(func(ev mangos.PipeEvent, p mangos.Pipe) {
+		if ev == mangos.PipeEventAttached {
+			pipes = append(pipes, p)
+		}
+	})
+	l, err := sock.NewListener("vt://l", nil)
+	verif.Assert(err == nil && l.Listen() == nil, lab+"/listen")
+	d, err := sock.NewDialer("vt://peer", nil)
+	verif.Assert(err == nil && d.Dial() == nil, lab+"/dial")
+	verif.Quiesce()
+	if len(pipes) == 0 {
+		verif.Fail(lab + "/no-pipe")
+		return
+	}
+	p := pipes[0]
+	a := verif.Choice("opA", len(coreOps))
+	b := verif.Choice("opB", len(coreOps))
+	verif.Assume(a <= b)
+	do := func(op int) {
+		switch coreOps[op] {
+		case "d.get-maxrx":
+			d.GetOption(mangos.OptionMaxRecvSize)
+		case "d.get-reconn":
+			d.GetOption(mangos.OptionReconnectTime)
+		case "d.set-reconn":
+			d.SetOption(mangos.OptionReconnectTime, time.Second)
+		case "s.set-reconn":
+			sock.SetOption(mangos.OptionReconnectTime, time.Second)
+		case "s.set-maxrx":
+			sock.SetOption(mangos.OptionMaxRecvSize, 4096)
+		case "s.get-maxrx":
+			sock.GetOption(mangos.OptionMaxRecvSize)
+		case "l.get-maxrx":
+			l.GetOption(mangos.OptionMaxRecvSize)
+		case "l.set-maxrx":
+			l.SetOption(mangos.OptionMaxRecvSize, 2048)
+		case "p.get-maxrx":
+			p.GetOption(mangos.OptionMaxRecvSize)
+		case "p.close":
+			p.Close()
+		case "d.close":
+			d.Close()
+		case "l.close":
+			l.Close()
+		case "s.set-asynch":
+			sock.SetOption(mangos.OptionDialAsynch, true)
+		case "s.get-reconn":
+			sock.GetOption(mangos.OptionReconnectTime)
+		case "d.get-passed-up": // an option neither the dialer nor its transport knows is passed up to the socket
+			d.GetOption("NO-SUCH-OPTION")
+		case "l.get-passed-up":
+			l.GetOption("NO-SUCH-OPTION")
+		}
+	}
+	ga := verif.Go("A", func() { do(a) })
+	gb := verif.Go("B", func() { do(b) })
+	verif.Quiesce()
+	verif.Assert(ga.Done() && gb.Done(), lab+"/"+coreOps[a]+"+"+coreOps[b]+"/calls-deadlocked")
+	verif.Reach("ran")
+	sock.Close()
+	verif.Quiesce()
+}
